@@ -515,3 +515,1153 @@ Proof.
 Qed.
 
 Local Close Scope Z_scope.
+
+(* ------------------------------------------------------------------------------------------ *)
+(* locks: who holds a lock *)
+Definition first_dep (cfg : config) (k : nat) : list nat :=
+  match dep0 cfg k with Some l0 => [l0] | None => [] end.
+
+(* locks a thread holds on account of the operation it is in the middle of *)
+Definition inflight_locks (cfg : config) (p : pc) : list nat :=
+  match p with
+  | D_try1 _ k | D_rollback _ k => first_dep cfg k
+  | Q_unlock _ (Some k) => deps cfg k
+  | U_dep0 k => match dep1 cfg k with Some _ => first_dep cfg k | None => [] end
+  | _ => []
+  end.
+
+(* every lock a thread holds: taken by lock/try_lock, through a task it was handed, in flight *)
+Definition tlocks (cfg : config) (ts : tstate) : list nat :=
+  hlocks ts ++ flat_map (deps cfg) (htasks ts) ++ inflight_locks cfg (tpc ts).
+
+Definition pc_ok (cfg : config) (ts : tstate) : Prop :=
+  match tpc ts with
+  | L_unlock l => In l (hlocks ts)
+  | D_try0 _ k => dep0 cfg k <> None
+  | D_try1 _ k | D_rollback _ k => dep0 cfg k <> None /\ dep1 cfg k <> None
+  | U_dep1 k => dep0 cfg k <> None /\ dep1 cfg k <> None /\ In k (htasks ts)
+  | U_dep0 k => dep0 cfg k <> None /\ (dep1 cfg k = None -> In k (htasks ts))
+  | _ => True
+  end.
+
+Record lock_inv (cfg : config) (s : sys) : Prop := mkLockInv {
+  li_own : forall l t, locks s l = Some t <-> In l (tlocks cfg (thr s t));
+  li_nodup : forall t, NoDup (tlocks cfg (thr s t));
+  li_pc : forall t, pc_ok cfg (thr s t) }.
+
+Lemma lock_frame : forall cfg s s' t0,
+  lock_inv cfg s -> locks s' = locks s ->
+  (forall t, t <> t0 -> thr s' t = thr s t) ->
+  Permutation (tlocks cfg (thr s' t0)) (tlocks cfg (thr s t0)) ->
+  pc_ok cfg (thr s' t0) ->
+  lock_inv cfg s'.
+Proof.
+  intros cfg s s' t0 [L1 L2 L3] Hl Ho Hp Hk. constructor.
+  - intros l t. rewrite Hl, L1. destruct (Nat.eq_dec t t0) as [->|Hn].
+    + split; intro H. eapply Permutation_in; [symmetry|]; eauto. eapply Permutation_in; eauto.
+    + rewrite Ho; tauto.
+  - intros t. destruct (Nat.eq_dec t t0) as [->|Hn].
+    + eapply Permutation_NoDup; [symmetry; eauto | apply L2].
+    + rewrite Ho; auto.
+  - intros t. destruct (Nat.eq_dec t t0) as [->|Hn]; auto. rewrite Ho; auto.
+Qed.
+
+Lemma lock_acquire : forall cfg s s' t0 l,
+  lock_inv cfg s -> locks s l = None -> locks s' = upd (locks s) l (Some t0) ->
+  (forall t, t <> t0 -> thr s' t = thr s t) ->
+  Permutation (tlocks cfg (thr s' t0)) (l :: tlocks cfg (thr s t0)) ->
+  pc_ok cfg (thr s' t0) ->
+  lock_inv cfg s'.
+Proof.
+  intros cfg s s' t0 l [L1 L2 L3] Hn Hl Ho Hp Hk.
+  assert (Hno : forall t, ~ In l (tlocks cfg (thr s t))).
+  { intros t Hi. apply L1 in Hi. congruence. }
+  constructor.
+  - intros l' t. rewrite Hl. destruct (Nat.eq_dec t t0) as [->|Ht].
+    + destruct (Nat.eq_dec l' l) as [->|Hl'].
+      * rewrite upd_same. split; auto. intros _. eapply Permutation_in; [symmetry; eauto|]. now left.
+      * rewrite upd_other by auto. rewrite L1. split; intro H.
+        -- eapply Permutation_in; [symmetry; eauto|]. now right.
+        -- apply (Permutation_in _ Hp) in H. destruct H as [H|H]; auto. congruence.
+    + rewrite Ho by auto. destruct (Nat.eq_dec l' l) as [->|Hl'].
+      * rewrite upd_same. split. congruence. intros H. elim (Hno _ H).
+      * rewrite upd_other by auto. apply L1.
+  - intros t. destruct (Nat.eq_dec t t0) as [->|Ht].
+    + eapply Permutation_NoDup; [symmetry; eauto|]. constructor; auto.
+    + rewrite Ho; auto.
+  - intros t. destruct (Nat.eq_dec t t0) as [->|Ht]; auto. rewrite Ho; auto.
+Qed.
+
+Lemma lock_release : forall cfg s s' t0 l,
+  lock_inv cfg s -> locks s' = upd (locks s) l None ->
+  (forall t, t <> t0 -> thr s' t = thr s t) ->
+  Permutation (l :: tlocks cfg (thr s' t0)) (tlocks cfg (thr s t0)) ->
+  pc_ok cfg (thr s' t0) ->
+  lock_inv cfg s'.
+Proof.
+  intros cfg s s' t0 l [L1 L2 L3] Hl Ho Hp Hk.
+  assert (Hnd : NoDup (l :: tlocks cfg (thr s' t0))).
+  { eapply Permutation_NoDup; [symmetry; eauto | apply L2]. }
+  assert (Hown : locks s l = Some t0).
+  { apply L1. eapply Permutation_in; eauto. now left. }
+  constructor.
+  - intros l' t. rewrite Hl. destruct (Nat.eq_dec t t0) as [->|Ht].
+    + destruct (Nat.eq_dec l' l) as [->|Hl'].
+      * rewrite upd_same. split. discriminate. intros H. inversion Hnd; subst. contradiction.
+      * rewrite upd_other by auto. rewrite L1. split; intro H.
+        -- apply (Permutation_in _ (Permutation_sym Hp)) in H. destruct H as [H|H]; auto. congruence.
+        -- eapply Permutation_in; eauto. now right.
+    + rewrite Ho by auto. destruct (Nat.eq_dec l' l) as [->|Hl'].
+      * rewrite upd_same. split. discriminate. intros H. apply L1 in H. congruence.
+      * rewrite upd_other by auto. apply L1.
+  - intros t. destruct (Nat.eq_dec t t0) as [->|Ht].
+    + now inversion Hnd.
+    + rewrite Ho; auto.
+  - intros t. destruct (Nat.eq_dec t t0) as [->|Ht]; auto. rewrite Ho; auto.
+Qed.
+
+Lemma flat_map_remove1 : forall (f : nat -> list nat) k l, In k l ->
+  Permutation (flat_map f l) (f k ++ flat_map f (remove1 k l)).
+Proof.
+  induction l; simpl. contradiction. intros H.
+  destruct (Nat.eqb k a) eqn:E.
+  - apply Nat.eqb_eq in E. subst. reflexivity.
+  - destruct H. subst. rewrite Nat.eqb_refl in E. discriminate.
+    simpl. rewrite (IHl H). rewrite !app_assoc. apply Permutation_app_tail. apply Permutation_app_comm.
+Qed.
+
+Lemma lock_inv_init : forall cfg, lock_inv cfg (init cfg).
+Proof.
+  intros. constructor; simpl; intros.
+  - unfold tlocks. simpl. split. discriminate. contradiction.
+  - constructor.
+  - exact I.
+Qed.
+
+Lemma count_remove1 : forall x l y, In x l ->
+  count_occ Nat.eq_dec l y = ((if Nat.eq_dec x y then 1 else 0) + count_occ Nat.eq_dec (remove1 x l) y)%nat.
+Proof.
+  intros x l y H.
+  pose proof (remove1_perm x l H) as P. rewrite (Permutation_count_occ Nat.eq_dec) in P. rewrite P.
+  simpl. destruct (Nat.eq_dec x y); reflexivity.
+Qed.
+Lemma count_flat_remove1 : forall (f : nat -> list nat) k l y, In k l ->
+  count_occ Nat.eq_dec (flat_map f l) y = (count_occ Nat.eq_dec (f k) y + count_occ Nat.eq_dec (flat_map f (remove1 k l)) y)%nat.
+Proof.
+  intros f k l y H. pose proof (flat_map_remove1 f k l H) as P.
+  rewrite (Permutation_count_occ Nat.eq_dec) in P. rewrite P. apply count_occ_app.
+Qed.
+
+Ltac thr_simpl :=
+  cbn [goto finish set_thr set_locks set_flags set_cursor set_taken set_maxtaken set_total set_ctr set_lfc set_mxv set_queues set_items set_qlk
+       thr locks flags queues]; rewrite ?upd_same; cbn [tpc top held hlocks htasks]; rewrite ?upd_same; cbn [tpc top held hlocks htasks].
+
+Ltac dep_rw :=
+  repeat match goal with
+  | H : dep0 _ _ = _ |- _ => rewrite H
+  | H : dep1 _ _ = _ |- _ => rewrite H
+  end.
+
+Ltac perm_count :=
+  apply (Permutation_count_occ Nat.eq_dec); intro;
+  repeat (progress (cbn [count_occ app]; rewrite ?count_occ_app));
+  repeat match goal with
+   | H : In ?x ?l |- context[count_occ Nat.eq_dec ?l ?y] => rewrite (count_remove1 x l y H)
+   | H : In ?k ?l |- context[count_occ Nat.eq_dec (flat_map ?f ?l) ?y] => rewrite (count_flat_remove1 f k l y H)
+   end;
+  cbn beta; dep_rw; cbn [count_occ];
+  repeat destruct (Nat.eq_dec _ _); lia.
+
+Ltac tl_simpl :=
+  unfold tlocks; thr_simpl;
+  repeat match goal with H : tpc _ = _ |- _ => rewrite H end;
+  cbn [inflight_locks]; unfold deps, first_dep; cbn [flat_map]; unfold deps; dep_rw.
+
+Ltac pcok_tac := unfold pc_ok; thr_simpl; dep_rw; try exact I; repeat split; try congruence; auto; try (intros; congruence).
+Ltac others_tac := intros; cbn; rewrite ?upd_other by assumption; reflexivity.
+
+Ltac lock_frame_tac t :=
+  eapply lock_frame with (t0 := t); [eassumption | reflexivity | others_tac
+   | tl_simpl; first [reflexivity | perm_count] | pcok_tac ].
+Ltac lock_acq_tac t :=
+  eapply lock_acquire with (t0 := t); [eassumption | eassumption | reflexivity | others_tac
+   | tl_simpl; first [reflexivity | perm_count] | pcok_tac ].
+Ltac lock_rel_tac t :=
+  eapply lock_release with (t0 := t); [eassumption | reflexivity | others_tac
+   | tl_simpl; first [reflexivity | perm_count] | pcok_tac ].
+
+Lemma lock_inv_exec : forall cfg s t c, lock_inv cfg s -> wf_choice s t c = true -> lock_inv cfg (fst (exec cfg s t c)).
+Proof.
+  intros cfg s t c I W.
+  exec_leaves; try assumption.
+  all: match goal with I0 : lock_inv _ ?s0, W0 : wf_choice _ ?t0 _ = true |- _ => pose proof (li_pc _ _ I0 t0) as K end; unfold pc_ok in K;
+       match goal with H : tpc _ = _ |- _ => rewrite H in K end.
+  all: try solve [exfalso; intuition congruence].
+  all: repeat match goal with K0 : _ /\ _ |- _ => destruct K0 end.
+  all: try match goal with H : dep0 ?c ?k <> None |- _ =>
+         lazymatch goal with H2 : dep0 c k = _ |- _ => fail | _ => destruct (dep0 c k) eqn:?; [|congruence] end end.
+  all: try match goal with H : dep1 ?c ?k <> None |- _ =>
+         lazymatch goal with H2 : dep1 c k = _ |- _ => fail | _ => destruct (dep1 c k) eqn:?; [|congruence] end end.
+  all: try (unfold wf_choice in W; match goal with H : tpc _ = Idle |- _ => rewrite H in W end; apply memb_In in W).
+  all: repeat match goal with |- context[nth ?n ?l 0%nat] => let kk := fresh "kk" in set (kk := nth n l 0%nat) in * end.
+  all: try match goal with H0 : ?a = None -> In _ _, E : ?a = None |- _ => specialize (H0 E) end.
+  all: try (lock_frame_tac t; fail).
+  all: try (lock_acq_tac t; fail).
+  all: try (lock_rel_tac t; fail).
+Qed.
+
+Lemma lock_inv_hist : forall cfg s h, lock_inv cfg s -> lock_inv cfg (set_hist s h).
+Proof. intros cfg s h [L1 L2 L3]. constructor; auto. Qed.
+
+Lemma lock_inv_reach : forall cfg s, reach cfg s -> lock_inv cfg s.
+Proof.
+  intros cfg. apply reach_ind_exec.
+  - apply lock_inv_init.
+  - apply lock_inv_hist.
+  - intros. now apply lock_inv_exec.
+Qed.
+
+(* thread t holds lock l: through lock/try_lock, through a task it was handed, or in flight *)
+Definition lock_holds (cfg : config) (s : sys) (t l : nat) : Prop := In l (tlocks cfg (thr s t)).
+
+Lemma lock_exclusive : forall cfg s, reach cfg s ->
+  forall t1 t2 l, t1 <> t2 -> lock_holds cfg s t1 l -> ~ lock_holds cfg s t2 l.
+Proof.
+  intros cfg s Hr t1 t2 l Hn H1 H2. apply lock_inv_reach in Hr. destruct Hr as [L1 _ _].
+  apply L1 in H1. apply L1 in H2. congruence.
+Qed.
+
+Lemma lock_word_iff_held : forall cfg s, reach cfg s ->
+  forall l t, locks s l = Some t <-> lock_holds cfg s t l.
+Proof. intros cfg s Hr. apply lock_inv_reach in Hr. apply Hr. Qed.
+
+Lemma lock_held_once : forall cfg s, reach cfg s -> forall t, NoDup (tlocks cfg (thr s t)).
+Proof. intros cfg s Hr. apply lock_inv_reach in Hr. apply Hr. Qed.
+
+(* a task in a thread's hands comes with all the locks it declared *)
+Lemma task_held_owns_locks : forall cfg s, reach cfg s ->
+  forall t k l, In k (htasks (thr s t)) -> In l (deps cfg k) -> locks s l = Some t.
+Proof.
+  intros cfg s Hr t k l Hk Hl. apply lock_inv_reach in Hr. apply (li_own _ _ Hr).
+  unfold tlocks. apply in_or_app. right. apply in_or_app. left. apply in_flat_map. eauto.
+Qed.
+
+(* no lock is leaked: between two operations, a thread owns exactly the locks in its view *)
+Lemma idle_thread_locks_in_view : forall cfg s, reach cfg s ->
+  forall t l, tpc (thr s t) = Idle -> locks s l = Some t ->
+  In l (hlocks (thr s t)) \/ exists k, In k (htasks (thr s t)) /\ In l (deps cfg k).
+Proof.
+  intros cfg s Hr t l Hi Hl. apply lock_inv_reach in Hr. apply (li_own _ _ Hr) in Hl.
+  unfold tlocks in Hl. rewrite Hi in Hl. simpl in Hl. rewrite app_nil_r in Hl.
+  apply in_app_or in Hl. destruct Hl as [H|H]; auto. right. apply in_flat_map in H. exact H.
+Qed.
+
+(* ------------------------------------------------------------------------------------------ *)
+(* queues: the queue lock protects the critical section *)
+Definition in_cs (p : pc) : option nat :=
+  match p with
+  | QA_unlock q | Q_unlock q _ => Some q
+  | D_try0 (InQ q _) _ | D_try1 (InQ q _) _ | D_rollback (InQ q _) _ => Some q
+  | _ => None
+  end.
+
+Definition qlock_inv (s : sys) : Prop :=
+  forall q t, qlk (queues s q) = Some t <-> in_cs (tpc (thr s t)) = Some q.
+
+Lemma qlock_frame : forall s s' t0,
+  qlock_inv s -> (forall q, qlk (queues s' q) = qlk (queues s q)) ->
+  (forall t, t <> t0 -> thr s' t = thr s t) ->
+  in_cs (tpc (thr s' t0)) = in_cs (tpc (thr s t0)) ->
+  qlock_inv s'.
+Proof.
+  intros s s' t0 I Hq Ho Hc q t. rewrite Hq, (I q t).
+  destruct (Nat.eq_dec t t0) as [->|Hn]. now rewrite Hc. rewrite Ho; tauto.
+Qed.
+
+Lemma qlock_acquire : forall s s' t0 q0,
+  qlock_inv s -> qlk (queues s q0) = None ->
+  qlk (queues s' q0) = Some t0 -> (forall q, q <> q0 -> qlk (queues s' q) = qlk (queues s q)) ->
+  (forall t, t <> t0 -> thr s' t = thr s t) ->
+  in_cs (tpc (thr s t0)) = None -> in_cs (tpc (thr s' t0)) = Some q0 ->
+  qlock_inv s'.
+Proof.
+  intros s s' t0 q0 I Hn Hs Hq Ho Hc Hc' q t.
+  destruct (Nat.eq_dec q q0) as [->|Hqq].
+  - rewrite Hs. destruct (Nat.eq_dec t t0) as [->|Ht].
+    + split; auto.
+    + rewrite Ho by auto. rewrite <- (I q0 t). rewrite Hn. split; congruence.
+  - rewrite Hq by auto. rewrite (I q t). destruct (Nat.eq_dec t t0) as [->|Ht].
+    + rewrite Hc, Hc'. split; congruence.
+    + rewrite Ho; tauto.
+Qed.
+
+Lemma qlock_release : forall s s' t0 q0,
+  qlock_inv s -> qlk (queues s' q0) = None -> (forall q, q <> q0 -> qlk (queues s' q) = qlk (queues s q)) ->
+  (forall t, t <> t0 -> thr s' t = thr s t) ->
+  in_cs (tpc (thr s t0)) = Some q0 -> in_cs (tpc (thr s' t0)) = None ->
+  qlock_inv s'.
+Proof.
+  intros s s' t0 q0 I Hs Hq Ho Hc Hc' q t.
+  assert (Hown : qlk (queues s q0) = Some t0) by (now apply I).
+  destruct (Nat.eq_dec q q0) as [->|Hqq].
+  - rewrite Hs. destruct (Nat.eq_dec t t0) as [->|Ht].
+    + rewrite Hc'. split; discriminate.
+    + rewrite Ho by auto. rewrite <- (I q0 t). rewrite Hown. split; congruence.
+  - rewrite Hq by auto. rewrite (I q t). destruct (Nat.eq_dec t t0) as [->|Ht].
+    + rewrite Hc, Hc'. split; congruence.
+    + rewrite Ho; tauto.
+Qed.
+
+Lemma qlk_set_qlk_same : forall s q o, qlk (queues (set_qlk s q o) q) = o.
+Proof. intros. cbn. now rewrite upd_same. Qed.
+Lemma qlk_set_qlk_other : forall s q o q', q' <> q -> qlk (queues (set_qlk s q o) q') = qlk (queues s q').
+Proof. intros. cbn. now rewrite upd_other. Qed.
+Lemma qlk_set_items : forall s q l q', qlk (queues (set_items s q l) q') = qlk (queues s q').
+Proof. intros. cbn. destruct (Nat.eq_dec q' q) as [->|H]. now rewrite upd_same. now rewrite upd_other. Qed.
+Lemma qitems_set_qlk : forall s q o q', qitems (queues (set_qlk s q o) q') = qitems (queues s q').
+Proof. intros. cbn. destruct (Nat.eq_dec q' q) as [->|H]. now rewrite upd_same. now rewrite upd_other. Qed.
+Lemma qitems_set_items_same : forall s q l, qitems (queues (set_items s q l) q) = l.
+Proof. intros. cbn. now rewrite upd_same. Qed.
+Lemma qitems_set_items_other : forall s q l q', q' <> q -> qitems (queues (set_items s q l) q') = qitems (queues s q').
+Proof. intros. cbn. now rewrite upd_other. Qed.
+
+Lemma qlock_inv_init : forall cfg, qlock_inv (init cfg).
+Proof. intros cfg q t. simpl. split; discriminate. Qed.
+
+Ltac q_simpl :=
+  cbn [goto finish set_thr set_locks set_flags set_cursor set_taken set_maxtaken set_total set_ctr set_lfc set_mxv thr queues];
+  rewrite ?upd_same; cbn [tpc top held hlocks htasks].
+Ltac pc_rw := repeat match goal with H : tpc _ = _ |- _ => rewrite H end.
+Ltac qlk_same_tac := intros; q_simpl; rewrite ?qlk_set_items; reflexivity.
+Ltac qlock_frame_tac t :=
+  eapply qlock_frame with (t0 := t); [eassumption | qlk_same_tac | others_tac | q_simpl; pc_rw; reflexivity].
+Ltac qlock_acq_tac t :=
+  eapply qlock_acquire with (t0 := t);
+    [eassumption | eassumption | q_simpl; rewrite ?qlk_set_items; apply qlk_set_qlk_same
+    | intros; q_simpl; rewrite ?qlk_set_items; now apply qlk_set_qlk_other | others_tac | pc_rw; reflexivity | q_simpl; reflexivity].
+Ltac qlock_rel_tac t :=
+  eapply qlock_release with (t0 := t);
+    [eassumption | q_simpl; apply qlk_set_qlk_same | intros; q_simpl; now apply qlk_set_qlk_other | others_tac | pc_rw; reflexivity | q_simpl; reflexivity].
+
+Lemma qlock_inv_exec : forall cfg s t c, qlock_inv s -> qlock_inv (fst (exec cfg s t c)).
+Proof.
+  intros cfg s t c I.
+  exec_leaves; try assumption.
+  all: repeat match goal with |- context[nth ?n ?l 0%nat] => let kk := fresh "kk" in set (kk := nth n l 0%nat) in * end.
+  all: try (qlock_frame_tac t; fail).
+  all: try (qlock_acq_tac t; fail).
+  all: try (qlock_rel_tac t; fail).
+Qed.
+
+Lemma qlock_inv_reach : forall cfg s, reach cfg s -> qlock_inv s.
+Proof.
+  intros cfg. apply reach_ind_exec.
+  - apply qlock_inv_init.
+  - intros s h I. exact I.
+  - intros. now apply qlock_inv_exec.
+Qed.
+
+(* one thread at a time inside the critical section of a queue *)
+Lemma queue_cs_exclusive : forall cfg s, reach cfg s ->
+  forall t1 t2 q, in_cs (tpc (thr s t1)) = Some q -> in_cs (tpc (thr s t2)) = Some q -> t1 = t2.
+Proof.
+  intros cfg s Hr t1 t2 q H1 H2. apply qlock_inv_reach in Hr.
+  apply Hr in H1. apply Hr in H2. congruence.
+Qed.
+
+(* the scan of get_task looks at a valid position of an unchanged queue *)
+Definition scan_ok (s : sys) (t : nat) : Prop :=
+  match tpc (thr s t) with
+  | D_try0 (InQ q idx) k | D_try1 (InQ q idx) k | D_rollback (InQ q idx) k =>
+    1 <= idx <= length (qitems (queues s q)) /\ nth (idx - 1) (qitems (queues s q)) 0 = k
+  | _ => True
+  end.
+Definition scan_inv (s : sys) : Prop := forall t, scan_ok s t.
+
+Lemma scan_inv_init : forall cfg, scan_inv (init cfg).
+Proof. intros cfg t. exact I. Qed.
+
+(* a step of t0 that does not touch the items of the queues other threads are scanning *)
+Lemma scan_frame : forall s s' t0,
+  scan_inv s -> qlock_inv s ->
+  (forall t, t <> t0 -> thr s' t = thr s t) ->
+  (forall q, qitems (queues s' q) = qitems (queues s q) \/ in_cs (tpc (thr s t0)) = Some q \/ qlk (queues s q) = None) ->
+  scan_ok s' t0 ->
+  scan_inv s'.
+Proof.
+  intros s s' t0 I Q Ho Hq Hk t. destruct (Nat.eq_dec t t0) as [->|Hn]; auto.
+  specialize (I t). unfold scan_ok in *. rewrite Ho by auto.
+  assert (G : forall q, in_cs (tpc (thr s t)) = Some q -> qitems (queues s' q) = qitems (queues s q)).
+  { intros q Hc. destruct (Hq q) as [H|[H|H]]; auto.
+    - apply Q in H. apply Q in Hc. congruence.
+    - apply Q in Hc. congruence. }
+  destruct (tpc (thr s t)); auto; destruct x; auto; rewrite G; auto.
+Qed.
+
+
+Lemma nth_remove_lt : forall j (l : list nat) i, i < j -> nth i (remove_nth j l) 0 = nth i l 0.
+Proof.
+  induction j; intros l i H. lia.
+  destruct l; simpl; auto. destruct i; auto. apply IHj. lia.
+Qed.
+Lemma length_remove_nth : forall j (l : list nat), j < length l -> S (length (remove_nth j l)) = length l.
+Proof.
+  induction j; intros l H; destruct l; simpl in *; try lia. rewrite IHj; lia.
+Qed.
+
+Ltac items_tac :=
+  intros; q_simpl; rewrite ?qitems_set_qlk; try (left; reflexivity).
+
+Ltac items_q_tac :=
+  let q' := fresh "q'" in let Hne := fresh "Hne" in
+  intros q'; q_simpl;
+  match goal with |- context[set_items _ ?q0 _] =>
+    destruct (Nat.eq_dec q' q0) as [->|Hne];
+    [ right; first [ left; pc_rw; reflexivity | right; eassumption ]
+    | left; rewrite ?qitems_set_items_other by auto; rewrite ?qitems_set_qlk; reflexivity ]
+  end.
+
+Ltac scan_ok_tac :=
+  unfold scan_ok; q_simpl; rewrite ?qitems_set_qlk in *;
+  first [ exact Logic.I
+        | match goal with |- match ?x with Direct => _ | InQ _ _ => _ end => destruct x; [exact Logic.I | assumption] end
+        | split; [ lia | try reflexivity; f_equal; lia ] ].
+
+Lemma scan_inv_exec : forall cfg s t c, scan_inv s -> qlock_inv s -> scan_inv (fst (exec cfg s t c)).
+Proof.
+  intros cfg s t c I Q.
+  pose proof (I t) as K. unfold scan_ok in K.
+  exec_leaves; try assumption.
+  all: try match goal with H : tpc _ = _ |- _ => rewrite H in K end.
+  all: try (eapply scan_frame with (t0 := t); [eassumption | eassumption | others_tac | items_tac | unfold scan_ok; q_simpl; exact Logic.I]; fail).
+  all: try (eapply scan_frame with (t0 := t); [eassumption | eassumption | others_tac | first [items_q_tac | items_tac] | scan_ok_tac]; fail).
+Qed.
+
+Lemma scan_inv_reach : forall cfg s, reach cfg s -> scan_inv s.
+Proof.
+  intros cfg. apply reach_ind_exec.
+  - apply scan_inv_init.
+  - intros s h I. exact I.
+  - intros. apply scan_inv_exec; auto. eapply qlock_inv_reach; eauto.
+Qed.
+
+(* queues: what goes in comes out, once *)
+Definition ev_pushes (q : nat) (e : event) : list nat :=
+  match e_push e with Some (q', k) => if Nat.eqb q' q then [k] else [] | None => [] end.
+Definition ev_takes (q : nat) (e : event) : list nat :=
+  match e_take e with Some (q', k) => if Nat.eqb q' q then [k] else [] | None => [] end.
+(* a get_task / try_get_task on queue q completes (by unlocking the queue) and returns task k *)
+Definition ev_rets (q : nat) (e : event) : list nat :=
+  match e_obj e, e_ret e with
+  | BQLock q', Some (_, RTask (Some k)) => if Nat.eqb q' q then [k] else []
+  | _, _ => []
+  end.
+Definition pushed (s : sys) (q : nat) : list nat := flat_map (ev_pushes q) (hist s).
+Definition removed (s : sys) (q : nat) : list nat := flat_map (ev_takes q) (hist s).
+Definition returned (s : sys) (q : nat) : list nat := flat_map (ev_rets q) (hist s).
+
+Lemma remove_nth_perm : forall j (l : list nat), j < length l -> Permutation (remove_nth j l ++ [nth j l 0]) l.
+Proof.
+  induction j; intros l H; destruct l; simpl in *; try lia.
+  - rewrite Permutation_app_comm. reflexivity.
+  - constructor. apply IHj. lia.
+Qed.
+
+Lemma exec_items : forall cfg s t c q, scan_inv s ->
+  Permutation (qitems (queues (fst (exec cfg s t c)) q) ++ ev_takes q (snd (exec cfg s t c)))
+              (ev_pushes q (snd (exec cfg s t c)) ++ qitems (queues s q)).
+Proof.
+  intros cfg s t c q0 I.
+  pose proof (I t) as K. unfold scan_ok in K.
+  exec_leaves.
+  all: try match goal with H : tpc _ = _ |- _ => rewrite H in K end.
+  all: try (q_simpl; rewrite ?qitems_set_qlk; cbn; rewrite app_nil_r; reflexivity).
+  all: q_simpl; unfold ev_takes, ev_pushes; cbn [e_take e_push ev_take ev_push ev];
+       rewrite ?qitems_set_qlk in *;
+       match goal with |- context[set_items _ ?q1 _] =>
+         destruct (Nat.eq_dec q0 q1) as [->|Hne];
+         [ rewrite Nat.eqb_refl, qitems_set_items_same; rewrite ?qitems_set_qlk; cbn [app]
+         | rewrite (proj2 (Nat.eqb_neq q1 q0)) by auto; rewrite qitems_set_items_other by auto;
+           rewrite ?qitems_set_qlk; cbn; rewrite app_nil_r; reflexivity ] end.
+  all: first [ rewrite app_nil_r; apply Permutation_app_comm
+             | apply remove_nth_perm; lia
+             | destruct K as [K1 K2]; rewrite <- K2; apply remove_nth_perm; lia ].
+Qed.
+
+
+
+Lemma hist_step : forall cfg s t c, hist (fst (step cfg s t c)) = snd (exec cfg s t c) :: hist s.
+Proof. intros. rewrite step_fst. reflexivity. Qed.
+Lemma queues_step : forall cfg s t c, queues (fst (step cfg s t c)) = queues (fst (exec cfg s t c)).
+Proof. intros. rewrite step_fst. reflexivity. Qed.
+Lemma thr_step : forall cfg s t c, thr (fst (step cfg s t c)) = thr (fst (exec cfg s t c)).
+Proof. intros. rewrite step_fst. reflexivity. Qed.
+
+(* contents of the queue + everything removed from it = everything stored into it *)
+Lemma queue_multiset : forall cfg s, reach cfg s ->
+  forall q, Permutation (qitems (queues s q) ++ removed s q) (pushed s q).
+Proof.
+  intros cfg s Hr. induction Hr; intros q.
+  - reflexivity.
+  - unfold removed, pushed. rewrite hist_step, queues_step. cbn [flat_map].
+    pose proof (exec_items cfg s t c q (scan_inv_reach _ _ Hr)) as E.
+    rewrite app_assoc, E, <- app_assoc. apply Permutation_app_head. apply IHHr.
+Qed.
+
+(* task removed from queue q by a thread that has not yet returned from get_task *)
+Definition out_of (q : nat) (p : pc) : list nat :=
+  match p with Q_unlock q' (Some k) => if Nat.eqb q' q then [k] else [] | _ => [] end.
+Definition inflight_out (cfg : config) (s : sys) (q : nat) : list nat :=
+  flat_map (fun t => out_of q (tpc (thr s t))) (seq 0 (nthr cfg)).
+
+Lemma exec_rets : forall cfg s t c q,
+  Permutation (ev_takes q (snd (exec cfg s t c)) ++ out_of q (tpc (thr s t)))
+              (ev_rets q (snd (exec cfg s t c)) ++ out_of q (tpc (thr (fst (exec cfg s t c)) t))).
+Proof.
+  intros cfg s t c q0.
+  exec_leaves.
+  all: try match goal with H : tpc _ = _ |- _ => rewrite H end.
+  all: try (q_simpl; cbn; reflexivity).
+  all: q_simpl; unfold ev_takes, ev_rets, out_of; cbn [e_take e_ret e_obj ev_take ev_ret ev]; repeat match goal with |- context[Nat.eqb ?a ?b] => destruct (Nat.eqb a b) end; cbn; reflexivity.
+Qed.
+
+
+Lemma exec_skip : forall cfg s t c, (t <? nthr cfg) = false -> exec cfg s t c = (s, ev t ASkip BNone 0 0).
+Proof. intros. unfold exec. rewrite H. reflexivity. Qed.
+
+Lemma exec_thr_other : forall cfg s t c t', t' <> t -> thr (fst (exec cfg s t c)) t' = thr s t'.
+Proof.
+  intros cfg s t c t' Hn. exec_leaves; try reflexivity; cbn; rewrite ?upd_other by auto; reflexivity.
+Qed.
+
+Notation cnt := (count_occ Nat.eq_dec).
+
+Lemma flat_map_ext_in : forall (f g : nat -> list nat) l, (forall a, In a l -> f a = g a) -> flat_map f l = flat_map g l.
+Proof. induction l; simpl; intros; auto. rewrite H, IHl; auto. Qed.
+
+Lemma flat_map_seq_upd : forall (f g : nat -> list nat) n t x, t < n -> (forall i, i <> t -> g i = f i) ->
+  cnt (f t) x + cnt (flat_map g (seq 0 n)) x = cnt (g t) x + cnt (flat_map f (seq 0 n)) x.
+Proof.
+  induction n; intros t x Ht He. lia.
+  rewrite seq_S, !flat_map_app, !count_occ_app. cbn [flat_map plus]. rewrite !app_nil_r.
+  destruct (Nat.eq_dec t n) as [->|Hn].
+  - assert (E : flat_map g (seq 0 n) = flat_map f (seq 0 n)).
+    { apply flat_map_ext_in. intros a Ha. apply in_seq in Ha. apply He. lia. }
+    rewrite E. lia.
+  - rewrite (He n) by auto. assert (Hlt : t < n) by lia. specialize (IHn t x Hlt He). lia.
+Qed.
+
+
+Lemma queue_removed_accounted : forall cfg s, reach cfg s ->
+  forall q x, cnt (removed s q) x = cnt (returned s q) x + cnt (inflight_out cfg s q) x.
+Proof.
+  intros cfg s Hr. induction Hr; intros q x.
+  - assert (E : inflight_out cfg (init cfg) q = []).
+    { unfold inflight_out. simpl. induction (seq 0 (nthr cfg)); simpl; auto. }
+    rewrite E. reflexivity.
+  - unfold removed, returned. rewrite hist_step. cbn [flat_map]. rewrite !count_occ_app.
+    fold (removed s q). fold (returned s q). rewrite IHHr.
+    unfold inflight_out. rewrite thr_step.
+    destruct (t <? nthr cfg) eqn:Ht.
+    + apply Nat.ltb_lt in Ht.
+      pose proof (exec_rets cfg s t c q) as E. rewrite (Permutation_count_occ Nat.eq_dec) in E. specialize (E x).
+      rewrite !count_occ_app in E.
+      assert (F := flat_map_seq_upd (fun t' => out_of q (tpc (thr s t'))) (fun t' => out_of q (tpc (thr (fst (exec cfg s t c)) t')))
+                    (nthr cfg) t x Ht (fun i Hi => f_equal (fun ts => out_of q (tpc ts)) (exec_thr_other cfg s t c i Hi))).
+      cbv beta in F. lia.
+    + rewrite exec_skip by auto. cbn. reflexivity.
+Qed.
+
+(* every index stored into a queue is in the queue, or has been returned by get_task/try_get_task,
+   or is in the hands of a thread that is about to return it - each exactly as often as it was stored *)
+Lemma queue_hands_out_once : forall cfg s, reach cfg s ->
+  forall q, Permutation (qitems (queues s q) ++ returned s q ++ inflight_out cfg s q) (pushed s q).
+Proof.
+  intros cfg s Hr q. rewrite <- (queue_multiset cfg s Hr q).
+  apply Permutation_app_head. apply (Permutation_count_occ Nat.eq_dec). intros x.
+  rewrite count_occ_app. symmetry. now apply queue_removed_accounted.
+Qed.
+
+Lemma returned_at_most_pushed : forall cfg s, reach cfg s ->
+  forall q k, cnt (returned s q) k <= cnt (pushed s q) k.
+Proof.
+  intros cfg s Hr q k. pose proof (queue_hands_out_once cfg s Hr q) as P.
+  rewrite (Permutation_count_occ Nat.eq_dec) in P. specialize (P k). rewrite !count_occ_app in P. lia.
+Qed.
+
+Lemma returned_only_if_pushed : forall cfg s, reach cfg s ->
+  forall q k, In k (returned s q) -> In k (pushed s q).
+Proof.
+  intros cfg s Hr q k H. eapply Permutation_in. apply (queue_hands_out_once cfg s Hr q).
+  apply in_or_app. right. apply in_or_app. now left.
+Qed.
+
+Lemma queue_exact_when_quiescent : forall cfg s, reach cfg s -> quiescent cfg s ->
+  forall q, Permutation (qitems (queues s q) ++ returned s q) (pushed s q).
+Proof.
+  intros cfg s Hr Hq q. rewrite <- (queue_hands_out_once cfg s Hr q).
+  assert (E : inflight_out cfg s q = []).
+  { unfold inflight_out. generalize (fun t (H : In t (seq 0 (nthr cfg))) => Hq t (proj2 (proj1 (in_seq _ _ _) H))).
+    induction (seq 0 (nthr cfg)); simpl; intros G; auto. rewrite (G a) by now left. simpl. apply IHl. intros. apply G. now right. }
+  rewrite E, app_nil_r. reflexivity.
+Qed.
+
+(* ------------------------------------------------------------------------------------------ *)
+(* the operation a thread is executing determines where it can be *)
+Definition pc_op_ok (p : pc) (o : op) : Prop :=
+  match p with
+  | Idle => True
+  | G_readTaken => o = OGet
+  | G_fetchCur | G_cas _ | G_incTaken _ | G_maxLoad _ _ | G_maxCas _ _ _ _ | G_totInc _ => o = OGet \/ o = OGetU
+  | F_cas i | F_dec i => o = OFree i
+  | L_cas l => o = OLock l
+  | L_try l => o = OTryLock l
+  | L_unlock l => o = OUnlock l
+  | C_preinc c => o = OPreInc c
+  | C_postinc c => o = OPostInc c
+  | C_maxLoad c v | C_maxCas c v _ _ => o = OMax c v
+  | C_lfLoad c v | C_lfCas c v _ => o = OLFAdd c v
+  | QA_lock q k => o = OAddTask q k
+  | QA_unlock q => exists k, o = OAddTask q k
+  | Q_lock q => o = OGetTask q
+  | Q_trylock q => o = OTryGetTask q
+  | D_try0 Direct k | D_try1 Direct k | D_rollback Direct k => o = OLockDep k
+  | D_try0 (InQ q _) _ | D_try1 (InQ q _) _ | D_rollback (InQ q _) _ | Q_unlock q _ => o = OGetTask q \/ o = OTryGetTask q
+  | U_dep1 k | U_dep0 k => o = OUnlockDep k
+  end.
+
+Definition top_inv (s : sys) : Prop := forall t, pc_op_ok (tpc (thr s t)) (top (thr s t)).
+
+Lemma top_inv_exec : forall cfg s t c, top_inv s -> top_inv (fst (exec cfg s t c)).
+Proof.
+  intros cfg s t c I.
+  pose proof (I t) as K.
+  exec_leaves; try assumption.
+  all: try match goal with H : tpc _ = _ |- _ => rewrite H in K end.
+  all: intros t'; destruct (Nat.eq_dec t' t) as [->|Hn];
+       [ thr_simpl; cbn [pc_op_ok] | cbn; rewrite ?upd_other by auto; apply I ].
+  all: try (cbn in K; eauto; fail).
+Qed.
+
+Lemma top_inv_reach : forall cfg s, reach cfg s -> top_inv s.
+Proof.
+  intros cfg. apply reach_ind_exec.
+  - intros t. exact I.
+  - intros s h H. exact H.
+  - intros. now apply top_inv_exec.
+Qed.
+
+(* counters: no update is lost *)
+Local Open Scope N_scope.
+(* what a step contributes: a completed pre/post_increment of counter c adds 1,
+   a completed LockFree::add(c, v) adds v *)
+Definition inc_amount (c : nat) (e : event) : N :=
+  match e_ret e with
+  | Some (OPreInc c', _) | Some (OPostInc c', _) => if Nat.eqb c' c then 1 else 0
+  | _ => 0
+  end.
+Definition lf_amount (c : nat) (e : event) : N :=
+  match e_ret e with
+  | Some (OLFAdd c' v, _) => if Nat.eqb c' c then v else 0
+  | _ => 0
+  end.
+Definition total_of (f : event -> N) (h : list event) : N := fold_right (fun e a => f e + a) 0 h.
+
+Lemma exec_ctr : forall cfg s t c x, top_inv s ->
+  ctr (fst (exec cfg s t c)) x = wadd (ctr s x) (inc_amount x (snd (exec cfg s t c))) \/
+  (ctr (fst (exec cfg s t c)) x = ctr s x /\ inc_amount x (snd (exec cfg s t c)) = 0).
+Proof.
+  intros cfg s t c x I.
+  pose proof (I t) as K.
+  exec_leaves.
+  all: try match goal with H : tpc _ = _ |- _ => rewrite H in K end.
+  all: cbn [pc_op_ok] in K.
+  all: try (right; split; [reflexivity | unfold inc_amount; cbn [e_ret ev ev_ret ev_take ev_push]; try reflexivity]).
+  all: try (cbn [thr set_locks set_qlk set_items set_queues set_flags set_taken set_total set_maxtaken set_cursor set_ctr set_lfc set_mxv];
+            repeat match goal with
+                   | K0 : _ \/ _ |- _ => destruct K0
+                   | K0 : exists _, _ |- _ => destruct K0
+                   end;
+            match goal with K0 : top _ = _ |- _ => rewrite K0 end; reflexivity).
+  all: destruct (Nat.eq_dec x c0) as [->|Hx];
+       [ left; cbn; rewrite upd_same; unfold inc_amount; cbn; rewrite K, Nat.eqb_refl; reflexivity
+       | right; cbn; rewrite upd_other by auto; split; auto; unfold inc_amount; cbn; rewrite K;
+         rewrite (proj2 (Nat.eqb_neq c0 x)) by auto; reflexivity ].
+Qed.
+
+
+
+Lemma exec_lfc : forall cfg s t c x, top_inv s ->
+  lfc (fst (exec cfg s t c)) x = wadd (lfc s x) (lf_amount x (snd (exec cfg s t c))) \/
+  (lfc (fst (exec cfg s t c)) x = lfc s x /\ lf_amount x (snd (exec cfg s t c)) = 0).
+Proof.
+  intros cfg s t c x I.
+  pose proof (I t) as K.
+  exec_leaves.
+  all: try match goal with H : tpc _ = _ |- _ => rewrite H in K end.
+  all: cbn [pc_op_ok] in K.
+  all: try (right; split; [reflexivity | unfold lf_amount; cbn [e_ret ev ev_ret ev_take ev_push]; try reflexivity]).
+  all: try (cbn [thr set_locks set_qlk set_items set_queues set_flags set_taken set_total set_maxtaken set_cursor set_ctr set_lfc set_mxv];
+            repeat match goal with
+                   | K0 : _ \/ _ |- _ => destruct K0
+                   | K0 : exists _, _ |- _ => destruct K0
+                   end;
+            match goal with K0 : top _ = _ |- _ => rewrite K0 end; reflexivity).
+  all: match goal with H : (_ =? _) = true |- _ => apply N.eqb_eq in H; subst end.
+  all: destruct (Nat.eq_dec x c0) as [->|Hx];
+       [ left; cbn; rewrite upd_same; unfold lf_amount; cbn; rewrite K, Nat.eqb_refl; reflexivity
+       | right; cbn; rewrite upd_other by auto; split; auto; unfold lf_amount; cbn; rewrite K;
+         rewrite (proj2 (Nat.eqb_neq c0 x)) by auto; reflexivity ].
+Qed.
+
+Lemma WORD_nz : WORD <> 0.
+Proof. unfold WORD. lia. Qed.
+
+Lemma counter_no_lost_update : forall cfg s c, ctr0 cfg c < WORD -> reach cfg s ->
+  ctr s c = (ctr0 cfg c + total_of (inc_amount c) (hist s)) mod WORD.
+Proof.
+  intros cfg s c H0 Hr. induction Hr.
+  - simpl. rewrite N.add_0_r. symmetry. now apply N.mod_small.
+  - rewrite hist_step. cbn [total_of fold_right]. fold (total_of (inc_amount c) (hist s)).
+    rewrite step_fst. cbn [ctr set_hist].
+    destruct (exec_ctr cfg s t c0 c (top_inv_reach _ _ Hr)) as [E|[E1 E2]].
+    + rewrite E, IHHr. unfold wadd. rewrite N.add_mod_idemp_l by apply WORD_nz. f_equal. lia.
+    + rewrite E1, E2, IHHr. reflexivity.
+Qed.
+
+Lemma lockfree_add_no_lost_update : forall cfg s c, lfc0 cfg c < WORD -> reach cfg s ->
+  lfc s c = (lfc0 cfg c + total_of (lf_amount c) (hist s)) mod WORD.
+Proof.
+  intros cfg s c H0 Hr. induction Hr.
+  - simpl. rewrite N.add_0_r. symmetry. now apply N.mod_small.
+  - rewrite hist_step. cbn [total_of fold_right]. fold (total_of (lf_amount c) (hist s)).
+    rewrite step_fst. cbn [lfc set_hist].
+    destruct (exec_lfc cfg s t c0 c (top_inv_reach _ _ Hr)) as [E|[E1 E2]].
+    + rewrite E, IHHr. unfold wadd. rewrite N.add_mod_idemp_l by apply WORD_nz. f_equal. lia.
+    + rewrite E1, E2, IHHr. reflexivity.
+Qed.
+Local Close Scope N_scope.
+
+(* ------------------------------------------------------------------------------------------ *)
+(* what a completed operation tells its caller *)
+Lemma reach_step' : forall cfg s t c, reach cfg s -> wf_choice s t c = true -> reach cfg (fst (step cfg s t c)).
+Proof. intros. now apply reach_step. Qed.
+
+Lemma ret_means_idle : forall cfg s t c r, e_ret (snd (exec cfg s t c)) = Some r -> tpc (thr (fst (exec cfg s t c)) t) = Idle.
+Proof.
+  intros cfg s t c r.
+  exec_leaves; cbn [e_ret ev ev_ret ev_take ev_push]; try discriminate; intros _; thr_simpl; reflexivity.
+Qed.
+
+Lemma ret_task_in_view : forall cfg s t c o k,
+  e_ret (snd (exec cfg s t c)) = Some (o, RTask (Some k)) -> In k (htasks (thr (fst (exec cfg s t c)) t)).
+Proof.
+  intros cfg s t c o k.
+  exec_leaves; cbn [e_ret ev ev_ret ev_take ev_push]; intros E; inversion E; subst.
+  all: thr_simpl; now left.
+Qed.
+
+(* when get_task / try_get_task returns task k to thread t, t owns every lock k declared *)
+Lemma handout_owns_all_resources : forall cfg s t c o k,
+  reach cfg s -> wf_choice s t c = true ->
+  e_ret (snd (step cfg s t c)) = Some (o, RTask (Some k)) ->
+  forall l, In l (deps cfg k) -> locks (fst (step cfg s t c)) l = Some t.
+Proof.
+  intros cfg s t c o k Hr W E l Hl.
+  eapply task_held_owns_locks; [apply reach_step'; eauto | | exact Hl].
+  rewrite thr_step. rewrite step_snd in E. eapply ret_task_in_view; eauto.
+Qed.
+
+Lemma ret_false_keeps_view : forall cfg s t c o,
+  e_ret (snd (exec cfg s t c)) = Some (o, RBool false) ->
+  hlocks (thr (fst (exec cfg s t c)) t) = hlocks (thr s t) /\ htasks (thr (fst (exec cfg s t c)) t) = htasks (thr s t).
+Proof.
+  intros cfg s t c o.
+  exec_leaves; cbn [e_ret ev ev_ret ev_take ev_push]; intros E; inversion E; subst.
+  all: thr_simpl; cbn [thr set_locks]; auto.
+Qed.
+
+(* a failed lock attempt - try_lock, or lock_dependency including the case where the first lock
+   was taken and the second was not - leaves the thread owning nothing but what its view
+   contained before *)
+Lemma rollback_leaves_no_lock : forall cfg s t c o,
+  reach cfg s -> wf_choice s t c = true ->
+  e_ret (snd (step cfg s t c)) = Some (o, RBool false) ->
+  forall l, locks (fst (step cfg s t c)) l = Some t ->
+  In l (hlocks (thr s t)) \/ exists k, In k (htasks (thr s t)) /\ In l (deps cfg k).
+Proof.
+  intros cfg s t c o Hr W E l Hl. rewrite step_snd in E.
+  destruct (ret_false_keeps_view cfg s t c o E) as [V1 V2].
+  rewrite <- V1, <- V2. rewrite <- !thr_step.
+  apply (idle_thread_locks_in_view cfg (fst (step cfg s t c))); auto.
+  - now apply reach_step'.
+  - rewrite thr_step. eapply ret_means_idle; eauto.
+Qed.
+
+(* ------------------------------------------------------------------------------------------ *)
+(* progress: a scan that comes across a task whose locks are free hands out a task *)
+Definition solo_step (cfg : config) (t : nat) (s : sys) : sys := fst (step cfg s t OGet).
+Fixpoint solo (cfg : config) (t : nat) (n : nat) (s : sys) : sys :=
+  match n with O => s | S n' => solo cfg t n' (solo_step cfg t s) end.
+
+(* all locks of task k are free (and they are different locks) *)
+Definition lockable (cfg : config) (s : sys) (k : nat) : Prop :=
+  NoDup (deps cfg k) /\ forall l, In l (deps cfg k) -> locks s l = None.
+
+Definition handed (s : sys) (t q : nat) : Prop := exists k, tpc (thr s t) = Q_unlock q (Some k).
+Definition eventually_handed (cfg : config) (s : sys) (t q : nat) : Prop := exists n, handed (solo cfg t n s) t q.
+
+Lemma eventually_S : forall cfg s t q, eventually_handed cfg (solo_step cfg t s) t q -> eventually_handed cfg s t q.
+Proof. intros cfg s t q [n H]. exists (S n). exact H. Qed.
+Lemma eventually_now : forall cfg s t q, handed s t q -> eventually_handed cfg s t q.
+Proof. intros cfg s t q H. now exists 0. Qed.
+
+Lemma solo_reach : forall cfg s t, reach cfg s -> tpc (thr s t) <> Idle -> reach cfg (solo_step cfg t s).
+Proof.
+  intros cfg s t Hr Hn. apply reach_step; auto. unfold wf_choice. destruct (tpc (thr s t)); auto; congruence.
+Qed.
+
+Lemma lt_nthr : forall cfg t, t < nthr cfg -> negb (t <? nthr cfg) = false.
+Proof. intros. apply negb_false_iff. now apply Nat.ltb_lt. Qed.
+
+(* the scan continues below a task it could not lock *)
+Lemma scan_continue : forall cfg s1 t q m e h,
+  0 < m ->
+  let s2 := set_hist (fst (scan cfg s1 t q m e)) h in
+  handed s2 t q \/
+  (exists k', tpc (thr s2 t) = D_try0 (InQ q m) k' /\ locks s2 = locks s1 /\ queues s2 = queues s1).
+Proof.
+  intros cfg s1 t q m e h Hm. destruct m as [|j]. lia.
+  unfold scan. destruct (dep0 cfg (nth j (qitems (queues s1 q)) 0)) eqn:E; cbn [fst].
+  - right. eexists. split; [|split]; try reflexivity. cbn. rewrite upd_same. reflexivity.
+  - left. eexists. cbn. rewrite upd_same. reflexivity.
+Qed.
+
+Section Progress.
+  Variable cfg : config.
+  Variables t q : nat.
+  Hypothesis Ht : t < nthr cfg.
+
+  Lemma step_try0_fail : forall s idx k l0 o,
+    tpc (thr s t) = D_try0 (InQ q idx) k -> dep0 cfg k = Some l0 -> locks s l0 = Some o ->
+    exists e h, solo_step cfg t s = set_hist (fst (scan cfg s t q (idx - 1) e)) h.
+  Proof.
+    intros s idx k l0 o Hp Hd Hl. unfold solo_step. rewrite step_fst. unfold exec.
+    rewrite (lt_nthr _ _ Ht), Hp, Hd, Hl. cbn [dep_done]. eexists. eexists. reflexivity.
+  Qed.
+
+  Lemma step_try0_single : forall s idx k l0,
+    tpc (thr s t) = D_try0 (InQ q idx) k -> dep0 cfg k = Some l0 -> dep1 cfg k = None -> locks s l0 = None ->
+    handed (solo_step cfg t s) t q.
+  Proof.
+    intros s idx k l0 Hp Hd Hd1 Hl. unfold solo_step. rewrite step_fst. unfold exec.
+    rewrite (lt_nthr _ _ Ht), Hp, Hd, Hl, Hd1. cbn [dep_done fst]. exists k. cbn. rewrite upd_same. reflexivity.
+  Qed.
+
+  Lemma step_try0_first : forall s idx k l0 l1,
+    tpc (thr s t) = D_try0 (InQ q idx) k -> dep0 cfg k = Some l0 -> dep1 cfg k = Some l1 -> locks s l0 = None ->
+    let s1 := solo_step cfg t s in
+    tpc (thr s1 t) = D_try1 (InQ q idx) k /\ locks s1 = upd (locks s) l0 (Some t) /\ queues s1 = queues s.
+  Proof.
+    intros s idx k l0 l1 Hp Hd Hd1 Hl. unfold solo_step. rewrite step_fst. unfold exec.
+    rewrite (lt_nthr _ _ Ht), Hp, Hd, Hl, Hd1. cbn. rewrite upd_same. auto.
+  Qed.
+
+  Lemma step_try1_ok : forall s idx k l1,
+    tpc (thr s t) = D_try1 (InQ q idx) k -> dep1 cfg k = Some l1 -> locks s l1 = None ->
+    handed (solo_step cfg t s) t q.
+  Proof.
+    intros s idx k l1 Hp Hd1 Hl. unfold solo_step. rewrite step_fst. unfold exec.
+    rewrite (lt_nthr _ _ Ht), Hp, Hd1, Hl. cbn [dep_done fst]. exists k. cbn. rewrite upd_same. reflexivity.
+  Qed.
+
+  Lemma step_try1_fail : forall s idx k l1 o,
+    tpc (thr s t) = D_try1 (InQ q idx) k -> dep1 cfg k = Some l1 -> locks s l1 = Some o ->
+    let s1 := solo_step cfg t s in
+    tpc (thr s1 t) = D_rollback (InQ q idx) k /\ locks s1 = locks s /\ queues s1 = queues s.
+  Proof.
+    intros s idx k l1 o Hp Hd1 Hl. unfold solo_step. rewrite step_fst. unfold exec.
+    rewrite (lt_nthr _ _ Ht), Hp, Hd1, Hl. cbn. rewrite upd_same. auto.
+  Qed.
+
+  Lemma step_rollback : forall s idx k l0,
+    tpc (thr s t) = D_rollback (InQ q idx) k -> dep0 cfg k = Some l0 ->
+    exists e h, solo_step cfg t s = set_hist (fst (scan cfg (set_locks s (upd (locks s) l0 None)) t q (idx - 1) e)) h.
+  Proof.
+    intros s idx k l0 Hp Hd. unfold solo_step. rewrite step_fst. unfold exec.
+    rewrite (lt_nthr _ _ Ht), Hp, Hd. cbn [dep_done]. eexists. eexists. reflexivity.
+  Qed.
+End Progress.
+
+Lemma first_dep_in_deps : forall cfg k l0, dep0 cfg k = Some l0 -> In l0 (deps cfg k).
+Proof. intros cfg k l0 H. unfold deps. rewrite H. destruct (dep1 cfg k); now left. Qed.
+
+Lemma scan_reaches_free_task : forall cfg t q, t < nthr cfg ->
+  forall idx s k, reach cfg s -> tpc (thr s t) = D_try0 (InQ q idx) k ->
+  (exists j, j < idx /\ lockable cfg s (nth j (qitems (queues s q)) 0)) ->
+  eventually_handed cfg s t q.
+Proof.
+  intros cfg t q Ht idx. induction idx as [idx IH] using lt_wf_ind.
+  intros s k Hr Hp [j [Hj Hlk]].
+  pose proof (scan_inv_reach _ _ Hr t) as SK. unfold scan_ok in SK. rewrite Hp in SK. destruct SK as [Hidx Hk].
+  pose proof (li_pc _ _ (lock_inv_reach _ _ Hr) t) as PK. unfold pc_ok in PK. rewrite Hp in PK.
+  destruct (dep0 cfg k) as [l0|] eqn:D0; [|congruence].
+  assert (Hne : tpc (thr s t) <> Idle) by (rewrite Hp; discriminate).
+  pose proof (solo_reach cfg s t Hr Hne) as Hr1.
+  destruct (locks s l0) as [o|] eqn:L0.
+  - (* the first lock is taken: next position *)
+    assert (Hj' : j < idx - 1).
+    { destruct (Nat.eq_dec j (idx - 1)) as [->|]; [|lia]. exfalso. rewrite Hk in Hlk. destruct Hlk as [_ Hf].
+      rewrite (Hf l0) in L0. discriminate. now apply first_dep_in_deps. }
+    destruct (step_try0_fail cfg t q Ht s idx k l0 o Hp D0 L0) as [e [h E]].
+    apply eventually_S. rewrite E in *.
+    destruct (scan_continue cfg s t q (idx - 1) e h) as [Hd | [k' [P1 [P2 P3]]]]; [lia | now apply eventually_now |].
+    apply (IH (idx - 1)) with (k := k'); auto. lia.
+    exists j. split; auto. rewrite P3. destruct Hlk as [Hnd Hf]. split; auto. intros l Hl. rewrite P2. auto.
+  - destruct (dep1 cfg k) as [l1|] eqn:D1.
+    + (* two locks *)
+      destruct (step_try0_first cfg t q Ht s idx k l0 l1 Hp D0 D1 L0) as [Q1 [Q2 Q3]].
+      apply eventually_S. set (s1 := solo_step cfg t s) in *.
+      destruct (locks s1 l1) as [o|] eqn:L1.
+      * (* the second lock is taken: roll back, next position *)
+        destruct (step_try1_fail cfg t q Ht s1 idx k l1 o Q1 D1 L1) as [R1 [R2 R3]].
+        assert (Hne1 : tpc (thr s1 t) <> Idle) by (rewrite Q1; discriminate).
+        pose proof (solo_reach cfg s1 t Hr1 Hne1) as Hr2.
+        apply eventually_S. set (s2 := solo_step cfg t s1) in *.
+        assert (Hne2 : tpc (thr s2 t) <> Idle) by (rewrite R1; discriminate).
+        pose proof (solo_reach cfg s2 t Hr2 Hne2) as Hr3.
+        destruct (step_rollback cfg t q Ht s2 idx k l0 R1 D0) as [e [h E]].
+        apply eventually_S. rewrite E in *.
+        assert (Hj' : j < idx - 1).
+        { destruct (Nat.eq_dec j (idx - 1)) as [->|]; [|lia]. exfalso. rewrite Hk in Hlk. destruct Hlk as [Hnd Hf].
+          unfold deps in Hnd, Hf. rewrite D0, D1 in Hnd, Hf.
+          assert (l1 <> l0). { inversion Hnd; subst. intros ->. apply H1. now left. }
+          rewrite Q2, upd_other in L1 by auto. rewrite (Hf l1) in L1. discriminate. right. now left. }
+        destruct (scan_continue cfg (set_locks s2 (upd (locks s2) l0 None)) t q (idx - 1) e h) as [Hd | [k' [P1 [P2 P3]]]];
+          [lia | now apply eventually_now |].
+        apply (IH (idx - 1)) with (k := k'); auto. lia.
+        exists j. split; auto. rewrite P3. cbn [queues set_locks]. rewrite R3, Q3.
+        destruct Hlk as [Hnd Hf]. split; auto. intros l Hl. rewrite P2. cbn [locks set_locks]. rewrite R2, Q2.
+        destruct (Nat.eq_dec l l0) as [->|Hl0]. now rewrite upd_same. rewrite !upd_other by auto. auto.
+      * apply eventually_S. apply eventually_now. eapply step_try1_ok; eauto.
+    + apply eventually_S. apply eventually_now. eapply step_try0_single; eauto.
+Qed.
+
+(* get_task / try_get_task started on an unlocked queue that contains a task whose locks are all
+   free: running the caller alone, it removes a task from the queue for itself ... *)
+Lemma free_resources_imply_handout : forall cfg s t q,
+  reach cfg s -> t < nthr cfg ->
+  tpc (thr s t) = Q_lock q \/ tpc (thr s t) = Q_trylock q ->
+  qlk (queues s q) = None ->
+  (exists j, j < length (qitems (queues s q)) /\ lockable cfg s (nth j (qitems (queues s q)) 0)) ->
+  eventually_handed cfg s t q.
+Proof.
+  intros cfg s t q Hr Ht Hp Hq [j [Hj Hlk]].
+  assert (Hne : tpc (thr s t) <> Idle) by (destruct Hp as [-> | ->]; discriminate).
+  pose proof (solo_reach cfg s t Hr Hne) as Hr1.
+  assert (E : exists e h, solo_step cfg t s =
+            set_hist (fst (scan cfg (set_qlk s q (Some t)) t q (length (qitems (queues (set_qlk s q (Some t)) q))) e)) h).
+  { unfold solo_step. rewrite step_fst. unfold exec. rewrite (lt_nthr _ _ Ht).
+    destruct Hp as [-> | ->]; rewrite Hq; eexists; eexists; reflexivity. }
+  destruct E as [e [h E]]. apply eventually_S. rewrite E in *.
+  rewrite qitems_set_qlk in *.
+  destruct (scan_continue cfg (set_qlk s q (Some t)) t q (length (qitems (queues s q))) e h) as [Hd | [k' [P1 [P2 P3]]]];
+    [lia | now apply eventually_now |].
+  eapply scan_reaches_free_task; eauto.
+  exists j. split; auto. rewrite P3, qitems_set_qlk. destruct Hlk as [Hnd Hf]. split; auto.
+  intros l Hl. rewrite P2. cbn. auto.
+Qed.
+
+(* ... and its next step returns that task *)
+Lemma handed_is_returned : forall cfg s t q k c, t < nthr cfg -> tpc (thr s t) = Q_unlock q (Some k) ->
+  e_ret (snd (step cfg s t c)) = Some (top (thr s t), RTask (Some k)).
+Proof.
+  intros cfg s t q k c Ht Hp. rewrite step_snd. unfold exec. rewrite (lt_nthr _ _ Ht), Hp. reflexivity.
+Qed.
+
+(* ------------------------------------------------------------------------------------------ *)
+(* progress of the pool: a free (e.g. released) slot is found again *)
+Definition acquired (s : sys) (t : nat) : Prop := exists j, tpc (thr s t) = G_incTaken j.
+
+Local Open Scope N_scope.
+Lemma winc_shift : forall c m, (winc c + m) mod WORD = (c + (m + 1)) mod WORD.
+Proof.
+  intros. unfold winc. rewrite N.add_mod_idemp_l by apply WORD_nz. f_equal. lia.
+Qed.
+
+(* every residue is met within 2*p consecutive values of a 64-bit cursor, wrap included *)
+Lemma cursor_covers : forall c p i, 0 < p -> p <= WORD -> c < WORD -> i < p ->
+  exists m, m < 2 * p /\ ((c + m) mod WORD) mod p = i.
+Proof.
+  intros c p i Hp Hpw Hc Hi.
+  destruct (N.le_gt_cases (c + p) WORD) as [Hnw|Hw].
+  - (* no wrap within the next p values *)
+    assert (Hr : c mod p < p) by (apply N.mod_lt; lia).
+    assert (Hcr : c = (c / p) * p + c mod p) by (rewrite N.mul_comm; apply N.div_mod; lia).
+    generalize dependent (c mod p). generalize dependent (c / p). intros a r Hr Hcr.
+    destruct (N.le_gt_cases r i) as [Hri|Hri].
+    + exists (i - r). split. lia.
+      assert (E : c + (i - r) = i + a * p) by lia.
+      rewrite E, (N.mod_small (i + a * p)) by lia.
+      rewrite N.mod_add by lia. apply N.mod_small. lia.
+    + exists (i + p - r). split. lia.
+      assert (E : c + (i + p - r) = i + (a + 1) * p) by lia.
+      rewrite E, (N.mod_small (i + (a + 1) * p)) by lia.
+      rewrite N.mod_add by lia. apply N.mod_small. lia.
+  - (* the cursor wraps to 0 first *)
+    exists (WORD - c + i). split. lia.
+    replace (c + (WORD - c + i)) with (i + 1 * WORD) by lia.
+    rewrite N.mod_add by apply WORD_nz. rewrite (N.mod_small i WORD) by lia. apply N.mod_small. lia.
+Qed.
+Local Close Scope N_scope.
+
+Lemma get_progress_fuel : forall cfg t, t < nthr cfg -> forall n s,
+  tpc (thr s t) = G_fetchCur -> (cursor s < WORD)%N ->
+  (exists m, m < n /\ flags s (N.to_nat (((cursor s + N.of_nat m) mod WORD) mod N.of_nat (psize cfg))) = None) ->
+  exists k, acquired (solo cfg t k s) t.
+Proof.
+  intros cfg t Ht. induction n; intros s Hp Hc [m [Hm Hf]]. lia.
+  (* first step: fetch the cursor *)
+  set (i0 := N.to_nat (cursor s mod N.of_nat (psize cfg))).
+  assert (S1 : tpc (thr (solo_step cfg t s) t) = G_cas i0 /\ flags (solo_step cfg t s) = flags s /\ cursor (solo_step cfg t s) = winc (cursor s)).
+  { unfold solo_step. rewrite step_fst. unfold exec. rewrite (lt_nthr _ _ Ht), Hp. cbn. rewrite upd_same. auto. }
+  destruct S1 as [P1 [F1 C1]]. set (s1 := solo_step cfg t s) in *.
+  destruct (flags s i0) as [o|] eqn:Fi.
+  - (* taken: the CAS fails, next cursor value *)
+    assert (S2 : tpc (thr (solo_step cfg t s1) t) = G_fetchCur /\ flags (solo_step cfg t s1) = flags s1 /\ cursor (solo_step cfg t s1) = cursor s1).
+    { unfold solo_step. rewrite step_fst. unfold exec. rewrite (lt_nthr _ _ Ht), P1, F1, Fi. cbn. rewrite upd_same. auto. }
+    destruct S2 as [P2 [F2 C2]]. set (s2 := solo_step cfg t s1) in *.
+    destruct m as [|m'].
+    + exfalso. rewrite N.add_0_r, (N.mod_small (cursor s)) in Hf by auto. fold i0 in Hf. congruence.
+    + destruct (IHn s2 P2) as [k Hk].
+      * rewrite C2, C1. apply N.mod_lt. apply WORD_nz.
+      * exists m'. split. lia. rewrite F2, F1, C2, C1, winc_shift.
+        replace (N.of_nat m' + 1)%N with (N.of_nat (S m')) by lia. exact Hf.
+      * exists (S (S k)). exact Hk.
+  - (* free: the CAS succeeds *)
+    exists 2. cbn [solo]. fold s1. exists i0.
+    unfold solo_step. rewrite step_fst. unfold exec. rewrite (lt_nthr _ _ Ht), P1, F1, Fi. cbn. rewrite upd_same. reflexivity.
+Qed.
+
+(* a requester past the "pool full?" test finds any slot that is free, in particular one that has
+   just been released; the cursor may wrap around the pool and around 2^64 on the way *)
+Lemma released_becomes_available : forall cfg s t i,
+  t < nthr cfg -> (0 < psize cfg) -> (N.of_nat (psize cfg) <= WORD)%N -> (cursor s < WORD)%N ->
+  tpc (thr s t) = G_fetchCur -> i < psize cfg -> flags s i = None ->
+  exists k, acquired (solo cfg t k s) t.
+Proof.
+  intros cfg s t i Ht Hp Hpw Hc Hpc Hi Hf.
+  destruct (cursor_covers (cursor s) (N.of_nat (psize cfg)) (N.of_nat i)) as [m [Hm Hcov]]; try lia.
+  eapply (get_progress_fuel cfg t Ht (S (N.to_nat m))); auto.
+  exists (N.to_nat m). split. lia. rewrite N2Nat.id, Hcov, Nat2N.id. exact Hf.
+Qed.
+
+Lemma cursor_in_range : forall cfg s, (cur0 cfg < WORD)%N -> reach cfg s -> (cursor s < WORD)%N.
+Proof.
+  intros cfg s H0 Hr. revert s Hr. apply (reach_ind_exec cfg (fun s => (cursor s < WORD)%N)); auto.
+  intros s0 t c _ I _. exec_leaves; auto. cbn. apply N.mod_lt. apply WORD_nz.
+Qed.
+
+(* ------------------------------------------------------------------------------------------ *)
+(* Examples: the hypotheses are satisfiable, the model runs *)
+Definition ex_none : nat -> option nat := fun _ => None.
+Definition ex_zero : nat -> N := fun _ => 0%N.
+
+(* two threads fill a pool of two slots whose cursor starts at 2^64 - 1 (so it wraps past 2^64 and
+   around the pool); a third request finds the pool full; after a release the slot is found again,
+   skipping the slot the requester holds itself *)
+Definition ex_pool_cfg : config := mkConfig 2 2 ex_none ex_none (WORD - 1)%N ex_zero ex_zero ex_zero.
+Definition ex_pool_sched : list (nat * op) :=
+  flat_map (fun _ => [(0, OGet); (1, OGet)]) (seq 0 8)      (* both get a slot, steps interleaved *)
+  ++ repeat (1, OGet) 2                                     (* thread 1 lost the race on the max counter: retry *)
+  ++ repeat (0, OGet) 2                                     (* pool full: returns size *)
+  ++ repeat (1, OFree 0) 3                                  (* thread 1 releases slot 0 *)
+  ++ repeat (0, OGet) 10.                                   (* thread 0: slot 1 is its own, finds slot 0 *)
+
+Example ex_pool_wf : wf_sched ex_pool_cfg ex_pool_sched (init ex_pool_cfg) = true.
+Proof. vm_compute. reflexivity. Qed.
+
+Definition ex_pool_final : sys := run ex_pool_cfg ex_pool_sched (init ex_pool_cfg).
+Example ex_pool_result :
+  (held (thr ex_pool_final 0), held (thr ex_pool_final 1), taken ex_pool_final, cursor ex_pool_final,
+   map (fun i => is_some (flags ex_pool_final i)) [0; 1], maxtaken ex_pool_final, total ex_pool_final,
+   map (fun e => e_ret e) (filter (fun e => is_some (e_ret e)) (rev (hist ex_pool_final))))
+  = ([0; 1], [], 2%N, 3%N, [true; true], 2%N, 3%N,
+     [Some (OGet, RNat 1); Some (OGet, RNat 0); Some (OGet, RNat 2); Some (OFree 0, RUnit); Some (OGet, RNat 0)]).
+Proof. vm_compute. reflexivity. Qed.
+
+(* two tasks that take the same two locks in opposite order; thread 1 holds lock 1, so the scan of
+   thread 0 takes lock 0 for task 0, fails on lock 1, rolls lock 0 back and returns no task; once
+   lock 1 is released the same scan hands out task 0 with both locks *)
+Definition ex_q_cfg : config :=
+  mkConfig 2 1 (fun k => match k with 0 => Some 0 | 1 => Some 1 | _ => None end)
+               (fun k => match k with 0 => Some 1 | 1 => Some 0 | _ => None end) 0%N ex_zero ex_zero ex_zero.
+Definition ex_q_sched : list (nat * op) :=
+  repeat (1, OTryLock 1) 2 ++ repeat (0, OAddTask 0 0) 3
+  ++ repeat (0, OGetTask 0) 6          (* start, queue lock, lock 0, lock 1 (fails), rollback, queue unlock *)
+  ++ repeat (1, OUnlock 1) 2
+  ++ repeat (0, OGetTask 0) 5.         (* start, queue lock, lock 0, lock 1, queue unlock *)
+Example ex_q_wf : wf_sched ex_q_cfg ex_q_sched (init ex_q_cfg) = true.
+Proof. vm_compute. reflexivity. Qed.
+Definition ex_q_mid : sys := run ex_q_cfg (firstn 11 ex_q_sched) (init ex_q_cfg).
+Definition ex_q_final : sys := run ex_q_cfg ex_q_sched (init ex_q_cfg).
+Example ex_q_result :
+  (map (locks ex_q_mid) [0; 1], htasks (thr ex_q_mid 0), qitems (queues ex_q_mid 0),
+   map (locks ex_q_final) [0; 1], htasks (thr ex_q_final 0), qitems (queues ex_q_final 0),
+   map (fun e => e_ret e) (filter (fun e => is_some (e_ret e)) (rev (hist ex_q_final))))
+  = ([None; Some 1], [], [0],
+     [Some 0; Some 0], [0], [],
+     [Some (OTryLock 1, RBool true); Some (OAddTask 0 0, RUnit); Some (OGetTask 0, RTask None);
+      Some (OUnlock 1, RUnit); Some (OGetTask 0, RTask (Some 0))]).
+Proof. vm_compute. reflexivity. Qed.
+
+(* the hypotheses of the progress theorems are satisfiable *)
+Example ex_lockable : lockable ex_q_cfg (init ex_q_cfg) 0.
+Proof.
+  split. vm_compute. repeat constructor; simpl; intuition congruence. intros. reflexivity.
+Qed.
+
+(* ------------------------------------------------------------------------------------------ *)
+(* a complete request on a quiescent pool with a free slot succeeds *)
+Lemma nset_lt_psize : forall cfg s i, i < psize cfg -> flags s i = None -> (nset cfg s < Z.of_nat (psize cfg))%Z.
+Proof.
+  intros cfg s i Hi Hf. unfold nset.
+  assert (G : forall n, (sumf (fun j => b2z (is_some (flags s j))) n <= Z.of_nat n - (if (i <? n)%nat then 1 else 0))%Z).
+  { induction n; simpl sumf. simpl. lia.
+    destruct (Nat.eq_dec i n) as [->|Hn].
+    - rewrite Hf. simpl b2z. replace (n <? S n) with true by (symmetry; apply Nat.ltb_lt; lia).
+      destruct (n <? n) eqn:E. apply Nat.ltb_lt in E. lia. lia.
+    - replace (i <? S n) with (i <? n).
+      + destruct (is_some (flags s n)); simpl b2z; lia.
+      + destruct (i <? n) eqn:E1, (i <? S n) eqn:E2; auto.
+        * apply Nat.ltb_lt in E1. apply Nat.ltb_ge in E2. lia.
+        * apply Nat.ltb_ge in E1. apply Nat.ltb_lt in E2. lia. }
+  specialize (G (psize cfg)). replace (i <? psize cfg) with true in G by (symmetry; now apply Nat.ltb_lt). lia.
+Qed.
+
+Lemma pool_get_succeeds_when_quiescent : forall cfg s t i,
+  reach cfg s -> quiescent cfg s -> t < nthr cfg ->
+  0 < psize cfg -> (N.of_nat (psize cfg) < WORD)%N -> (cur0 cfg < WORD)%N ->
+  i < psize cfg -> flags s i = None ->
+  exists k, acquired (solo cfg t k s) t.
+Proof.
+  intros cfg s t i Hr Hq Ht Hp Hpw Hc0 Hi Hf.
+  destruct (occupancy_exact_when_quiescent cfg s Hp Hpw Hr Hq) as [O1 O2].
+  assert (Htk : (taken s < N.of_nat (psize cfg))%N).
+  { pose proof (nset_lt_psize cfg s i Hi Hf) as L. rewrite <- count_flags_nset, <- O2, <- O1 in L. lia. }
+  pose proof (Hq t Ht) as Hidle.
+  (* step 1: the client starts get_free_element_safe *)
+  assert (S1 : tpc (thr (solo_step cfg t s) t) = G_readTaken /\ taken (solo_step cfg t s) = taken s
+               /\ flags (solo_step cfg t s) = flags s /\ cursor (solo_step cfg t s) = cursor s).
+  { unfold solo_step. rewrite step_fst. unfold exec. rewrite (lt_nthr _ _ Ht), Hidle. cbn. rewrite !upd_same. auto. }
+  destruct S1 as [P1 [T1 [F1 C1]]]. set (s1 := solo_step cfg t s) in *.
+  (* step 2: the occupancy test passes *)
+  assert (S2 : tpc (thr (solo_step cfg t s1) t) = G_fetchCur /\ flags (solo_step cfg t s1) = flags s1 /\ cursor (solo_step cfg t s1) = cursor s1).
+  { unfold solo_step. rewrite step_fst. unfold exec. rewrite (lt_nthr _ _ Ht), P1, T1.
+    apply N.ltb_lt in Htk. rewrite Htk. cbn. rewrite upd_same. auto. }
+  destruct S2 as [P2 [F2 C2]]. set (s2 := solo_step cfg t s1) in *.
+  destruct (released_becomes_available cfg s2 t i) as [k Hk]; auto; try lia.
+  - rewrite C2, C1. now apply cursor_in_range with (cfg := cfg).
+  - rewrite F2, F1. exact Hf.
+  - exists (S (S k)). exact Hk.
+Qed.
